@@ -258,6 +258,12 @@ func VH_replEcho() {
 	verifRunMain()
 	verifAssert("repl-echoes-expression-values", verifProcStdout() == ">> 3\n>> >> s\n>> ")
 	verifAssert("repl-echo-exit-0", verifProcExit() == 0)
+	// values whose text holds a '%' (a string, a string inside an array, a remainder)
+	verifSetArgs("borno")
+	verifSetStdinText("\"50%\";", "[1, \"100% done\"];", "7 % 4;", "\"%d %s %v\";")
+	verifRunMain()
+	verifAssert("repl-echoes-expression-values", verifProcStdout() == ">> 50%\n>> [1 100% done]\n>> 3\n>> %d %s %v\n>> ")
+	verifAssert("repl-echo-exit-0", verifProcExit() == 0 && verifProcStderr() == "")
 	verifSetArgs("borno", "a.bn")
 	verifSetFile(true, "1 + 2;\n")
 	verifSetStdin(0, true)
@@ -451,4 +457,17 @@ func VH_inputCRLF(nlines int) {
 	want := norm.NFC.String(strings.TrimSpace(lines[0])) + "\n" + "50%> " + norm.NFC.String(strings.TrimSpace(lines[1])) + "\n"
 	verifAssert("each-read-consumes-exactly-the-next-line", out == want)
 	verifAssert("reads-succeed", status == 0 && errText == "")
+}
+
+// VH_inputLong (C19): a stdin line of nbytes bytes (around the 4096-byte buffer of a buffered
+// reader) is still one line: the first ইনপুট returns all of it, the second the next line.
+func VH_inputLong(nbytes int) {
+	long := strings.Repeat("x", nbytes)
+	verifSetArgs("borno", "a.bn")
+	verifSetFile(true, progInput2)
+	verifSetStdinText(long, " second ")
+	verifSetStdinFinalNewline(true)
+	verifRunMain()
+	verifAssert("each-read-consumes-exactly-the-next-line", verifProcStdout() == long+"\n50%> second\n")
+	verifAssert("reads-succeed", verifProcExit() == 0 && verifProcStderr() == "")
 }
